@@ -27,6 +27,16 @@ theorem cntL_zero_of_firstNonEmpty_none {op : Op} {st : List (Key × Elem)} {key
     (h : firstNonEmpty op st keys = none) {k : Key} (hk : k ∈ keys) : st.countP (keyIs k) = 0 :=
   cntL_zero_of_popElem_none (firstNonEmpty_none h k hk)
 
+theorem Calm_setConn_tx {s : State} (hc : Calm s) (c : Conn) (f : ConnSt → ConnSt)
+    (hf : ∀ cs, (f cs).blocked = cs.blocked ∧ (f cs).gone = cs.gone ∧ (f cs).peerClosed = cs.peerClosed) :
+    Calm (setConn s c f) := by
+  intro c' hb
+  by_cases h : c' = c
+  · simp only [setConn, h, if_true] at hb ⊢
+    rw [(hf _).1] at hb; rw [(hf _).2.2]; exact hc c (by simpa using hb)
+  · simp only [setConn, h, if_false] at hb ⊢
+    exact hc c' hb
+
 theorem Calm_of_conns {s t : State} (h : t.conns = s.conns) (hc : Calm s) : Calm t := by
   unfold Calm; rw [h]; exact hc
 
@@ -169,13 +179,8 @@ theorem InvB_foldl_dataCmd (q : Quirks) (hq : Repaired q) (now : Nat) (c cid : C
 theorem InvB_tx {s : State} (hB : InvB s) (ho : Open s c) (f : ConnSt → ConnSt) (r : Reply)
     (hf : ∀ cs, (f cs).blocked = cs.blocked ∧ (f cs).gone = cs.gone ∧ (f cs).peerClosed = cs.peerClosed) :
     InvB (emit (setConn s c f) c r) :=
-  ⟨InvG_emit (InvG_setConn_tx hB.inv c f hf) (Open_setConn_tx ho c f hf).2.2 r, by simp [hB.quiet], by
-    intro c' hb
-    rw [emit_conns] at hb ⊢
-    simp only [setConn] at hb ⊢
-    split at hb
-    · rw [(hf _).1] at hb; rw [(hf _).2.2]; exact hB.calm c' hb
-    · next h => simp only [h, if_false]; exact hB.calm c' hb⟩
+  ⟨InvG_emit (InvG_setConn_tx hB.inv c f hf) (Open_setConn_tx ho c f hf).2.2 r, by simp [hB.quiet],
+    Calm_of_conns (by simp) (Calm_setConn_tx hB.calm c f hf)⟩
 
 theorem InvB_topCmd (q : Quirks) (hq : Repaired q) (now : Nat) (c : Conn) (s : State) (cmd : Cmd)
     (hB : InvB s) (ho : Open s c) (hok : topOkF q now c s cmd = true) : InvB (topCmd q now c s cmd) := by
@@ -232,12 +237,7 @@ theorem InvB_topCmd (q : Quirks) (hq : Repaired q) (now : Nat) (c : Conn) (s : S
 theorem InvB_setConn_tx {s : State} (hB : InvB s) (c : Conn) (f : ConnSt → ConnSt)
     (hf : ∀ cs, (f cs).blocked = cs.blocked ∧ (f cs).gone = cs.gone ∧ (f cs).peerClosed = cs.peerClosed) :
     InvB (setConn s c f) :=
-  ⟨InvG_setConn_tx hB.inv c f hf, by simp [hB.quiet], by
-    intro c' hb
-    simp only [setConn] at hb ⊢
-    split at hb
-    · rw [(hf _).1] at hb; rw [(hf _).2.2]; exact hB.calm c' hb
-    · next h => simp only [h, if_false]; exact hB.calm c' hb⟩
+  ⟨InvG_setConn_tx hB.inv c f hf, by simp [hB.quiet], Calm_setConn_tx hB.calm c f hf⟩
 
 theorem InvB_runBatch (q : Quirks) (hq : Repaired q) (now : Nat) (c : Conn) (cmds : List Cmd) :
     ∀ s, InvB s → Open s c → batchOkF q now c cmds s = true → InvB (runBatch q now c cmds s) := by
@@ -254,65 +254,71 @@ theorem InvB_runBatch (q : Quirks) (hq : Repaired q) (now : Nat) (c : Conn) (cmd
       simp only [hd, if_false] at h2
       exact ih _ (InvB_topCmd q hq now c s cmd h ho hok.1) (Open_topCmd ho) h2
 
-theorem InvB_step (q : Quirks) (hq : Repaired q) (s : State) (e : Event) (hB : InvB s) (hok : eventOkF q s e = true) :
-    InvB (step q s e) := by
+/-- With an empty wake queue, `calmReg` says that who is blocked has a peer. -/
+theorem Calm_of_calmReg {s : State} (hR : InvR s) (h : calmReg s = true) : Calm s := by
+  intro c hb
+  cases hbc : (s.conns c).blocked with
+  | none => exact absurd hbc hb
+  | some b =>
+    obtain ⟨k, hk⟩ := List.exists_mem_of_ne_nil _ (hR.inv.keysNe c b hbc)
+    rcases mem_slots_iff.mp (hR.inv.cover c b hbc k hk) with ⟨w, hw, hwc⟩ | ⟨w, hw, _, _⟩
+    · have := List.all_eq_true.mp h (k, w) hw
+      simp only [hwc, hbc, Option.isSome_some, Bool.and_true, Bool.not_eq_true'] at this
+      exact this
+    · rw [hR.quiet] at hw; cases hw
+
+theorem InvR_step (q : Quirks) (hq : Repaired q) (s : State) (e : Event) (hR : InvR s) (hok : eventOkF q s e = true) :
+    InvR (step q s e) := by
   cases e with
   | wakeups =>
-    refine ⟨InvF_iter_wakeOne q hq.2.2.1 _ _ hB.inv, ?_⟩
-    apply iter_wakeOne_quiet
-    rw [hB.quiet]; exact Nat.zero_le _
+    show InvR (iter (wakeOne q) wakeBatch s)
+    rw [iter_wakeOne_nil q _ s hR.quiet]; exact hR
   | conn c now cmds =>
     simp only [step]
-    simp only [eventOkF] at hok
+    simp only [eventOkF, Bool.and_eq_true] at hok
     split
     · next hcr =>
-      simp only [hcr, if_true] at hok
-      exact InvB_runBatch q hq now c _ _ (InvB_setConn_tx hB c _ (fun _ => ⟨rfl, rfl, rfl⟩))
-        (Open_setConn_tx (Open_of_canRun hcr) c _ (fun _ => ⟨rfl, rfl, rfl⟩)) hok
-    · exact hB
+      have hok2 := hok.2
+      simp only [hcr, if_true] at hok2
+      have hB : InvB s := ⟨hR.inv, hR.quiet, Calm_of_calmReg hR hok.1⟩
+      exact (InvB_runBatch q hq now c _ _ (InvB_setConn_tx hB c (fun cs => { cs with pending := [] }) (fun _ => ⟨rfl, rfl, rfl⟩))
+        (Open_setConn_tx (Open_of_canRun hcr) c (fun cs => { cs with pending := [] }) (fun _ => ⟨rfl, rfl, rfl⟩)) hok2).toR
+    · exact hR
   | timeouts now =>
-    exact ⟨InvF_timeouts now s hB.inv hB.quiet, by
+    exact ⟨InvF_timeouts now s hR.inv hR.quiet, by
       show (iter (expireOne now) s.registry.length s).wakeQ = []
-      rw [iter_expireOne_wakeQ]; exact hB.quiet⟩
+      rw [iter_expireOne_wakeQ]; exact hR.quiet⟩
   | hangup c =>
     simp only [step]
-    simp only [eventOkF, Option.isNone_iff_eq_none] at hok
     split
-    · exact ⟨InvF_hangup s c hB.inv hok, by simp [hB.quiet]⟩
-    · exact hB
+    · exact ⟨InvF_hangup s c hR.inv, by simp [hR.quiet]⟩
+    · exact hR
   | reap c =>
     simp only [step]
     split
-    · next hc =>
-      simp only [Bool.and_eq_true] at hc
-      have hpc : (s.conns c).peerClosed = true := hc.1.2
-      have hnb : (s.conns c).blocked = none := by
-        cases hb : (s.conns c).blocked with
-        | none => rfl
-        | some b =>
-          have := (hB.inv.alive c (by rw [hb]; simp)).2.2
-          rw [hpc] at this; cases this
-      exact ⟨InvF_reap s c hB.inv hnb, hB.quiet⟩
-    · exact hB
+    · cases hb : (s.conns c).blocked with
+      | none => exact ⟨InvF_reap s c hR.inv hb, hR.quiet⟩
+      | some b => exact ⟨InvF_reap_blocked s c hR.inv hR.quiet, hR.quiet⟩
+    · exact hR
 
-theorem InvB_runFrom (q : Quirks) (hq : Repaired q) (evs : List Event) :
-    ∀ s, InvB s → allowedFixedFrom q s evs = true → InvB (runFrom q s evs) := by
+theorem InvR_runFrom (q : Quirks) (hq : Repaired q) (evs : List Event) :
+    ∀ s, InvR s → allowedFixedFrom q s evs = true → InvR (runFrom q s evs) := by
   induction evs with
   | nil => intro s h _; exact h
   | cons e r ih =>
     intro s h hok
     simp only [allowedFixedFrom, Bool.and_eq_true] at hok
-    exact ih _ (InvB_step q hq s e h hok.1) hok.2
+    exact ih _ (InvR_step q hq s e h hok.1) hok.2
 
-theorem InvB_run (q : Quirks) (hq : Repaired q) (evs : List Event) (h : AllowedFixed q evs) : InvB (run q evs) :=
-  InvB_runFrom q hq evs init InvB_init h
+theorem InvR_run (q : Quirks) (hq : Repaired q) (evs : List Event) (h : AllowedFixed q evs) : InvR (run q evs) :=
+  InvR_runFrom q hq evs init InvB_init.toR h
 
 /-! ## Consequences -/
 
 theorem mem_line_iff' {s : State} {c : Conn} :
     c ∈ line s ↔ (∃ k w, (k, w) ∈ s.registry ∧ w.conn = c) ∨ (∃ w, w ∈ s.wakeQ ∧ w.conn = c) := mem_line_iff
 
-theorem InvB.not_stranded {s : State} (hB : InvB s) {c : Conn} {k : Key} (hb : blockedOn s c k) :
+theorem InvR.not_stranded {s : State} (hB : InvR s) {c : Conn} {k : Key} (hb : blockedOn s c k) :
     listOf s.store k = [] := by
   obtain ⟨b, hb, hk⟩ := hb
   rcases mem_slots_iff.mp (hB.inv.cover c b hb k hk) with ⟨w, hw, _⟩ | ⟨w, hw, _, _⟩
@@ -331,7 +337,7 @@ theorem InvB.not_stranded {s : State} (hB : InvB s) {c : Conn} {k : Key} (hb : b
     rw [this]; rfl
   · rw [hB.quiet] at hw; cases hw
 
-theorem InvB.registry_iff {s : State} (hB : InvB s) (c : Conn) (k : Key) :
+theorem InvR.registry_iff {s : State} (hB : InvR s) (c : Conn) (k : Key) :
     inRegistry s k c ↔ blockedOn s c k := by
   constructor
   · rintro ⟨w, hw, rfl⟩
@@ -342,7 +348,7 @@ theorem InvB.registry_iff {s : State} (hB : InvB s) (c : Conn) (k : Key) :
     · exact ⟨w, hw, hwc⟩
     · rw [hB.quiet] at hw; cases hw
 
-theorem InvB.no_leftover {s : State} (hB : InvB s) {c : Conn} (hc : (s.conns c).blocked = none) : c ∉ line s := by
+theorem InvR.no_leftover {s : State} (hB : InvR s) {c : Conn} (hc : (s.conns c).blocked = none) : c ∉ line s := by
   intro h
   rcases mem_line_iff.mp h with ⟨k, w, hw, hwc⟩ | ⟨w, hw, hwc⟩
   · exact hB.inv.no_reg_of_unblocked hc hw hwc
@@ -383,12 +389,12 @@ theorem iter_expireOne_blocked_scan (now : Nat) (c : Conn) (b : Blocked) :
     · exact ih _ (InvScan_expireOne now s hI hq) (by rw [expireOne_wakeQ]; exact hq) h hn
     · exact h
 
-theorem InvB.never_early_nil {s : State} (hB : InvB s) (now : Nat) (c : Conn) (b : Blocked)
+theorem InvR.never_early_nil {s : State} (hB : InvR s) (now : Nat) (c : Conn) (b : Blocked)
     (hb : (s.conns c).blocked = some b)
     (hn : ((iter (expireOne now) s.registry.length s).conns c).blocked = none) : ∃ d, b.deadline = some d ∧ d ≤ now :=
   iter_expireOne_blocked_scan now c b _ s (hB.inv.toScan now) hB.quiet hb hn
 
-theorem InvB.timeout_fires {s : State} (hB : InvB s) (now : Nat) (c : Conn) (b : Blocked) (d : Nat)
+theorem InvR.timeout_fires {s : State} (hB : InvR s) (now : Nat) (c : Conn) (b : Blocked) (d : Nat)
     (hb : (s.conns c).blocked = some b) (hd : b.deadline = some d) (hle : d ≤ now) :
     ((iter (expireOne now) s.registry.length s).conns c).blocked = none := by
   rcases iter_expireOne_blocked_or_none now c s.registry.length s with h | h
